@@ -883,9 +883,9 @@ class Sim:
         a = self.prog.adt(self_ty["did"])
         if a is None or not a["local"]:
             return None
-        trait = fnj["trait"]
+        trait = self.models.norm(fnj["trait"])
         for imp in self.prog.impls:
-            if imp.get("trait") != trait or imp["self"].get("k") != "adt" or imp["self"]["did"] != self_ty["did"]:
+            if self.models.norm(imp.get("trait", "")) != trait or imp["self"].get("k") != "adt" or imp["self"]["did"] != self_ty["did"]:
                 continue
             # unify impl trait args (self + trait params) with gargs prefix
             targs = imp["trait_args"]
@@ -901,6 +901,13 @@ class Sim:
                     ig = [binding.get(i, {"k": "param", "name": f["generics"][i]["name"], "idx": i}) for i in range(n)]
                     tgt = {"did": f["did"], "pretty": f["pretty"], "name": f["name"], "local": True, "args": ig,
                            "impl_trait": imp["trait"], "impl_self": imp["self"], "impl_derived": imp["derived"]}
+                    return tgt, ig
+            # provided (default) method of a local trait
+            for f in self.prog.by_name.get(fnj["name"], []):
+                if f.get("trait_default") and self.models.norm(f.get("trait", "")) == trait and "body" in f:
+                    n = len(f["generics"])
+                    ig = list(gargs[:n]) + [{"k": "param", "name": f["generics"][i]["name"], "idx": i} for i in range(len(gargs), n)]
+                    tgt = {"did": f["did"], "pretty": f["pretty"], "name": f["name"], "local": True, "args": ig, "trait": f["trait"]}
                     return tgt, ig
         return None
 
@@ -1018,6 +1025,10 @@ class Sim:
                     else:
                         raise Unsupported("switch on symbolic %r" % (v,))
                 iv = int(v.val)
+                if iv < 0:
+                    dn = subst(t["dty"], fr.gargs).get("name", "")
+                    bits = {"i8": 8, "i16": 16, "i32": 32, "i64": 64, "i128": 128, "isize": 64}.get(dn, 64)
+                    iv &= (1 << bits) - 1
                 tgt = t["otherwise"]
                 for val, bbx in t["targets"]:
                     if val == iv:
